@@ -196,6 +196,13 @@ impl Model {
         // Apply bounds for each Var==Var constraint
         for (var1, var2) in eq_constraints {
             if var1.to_index() < self.vars.count() && var2.to_index() < self.vars.count() {
+                // An empty integer domain has no bounds to intersect: the model is already
+                // unsatisfiable. Leave both domains untouched; validation reports the empty one.
+                let is_empty_int = |var: VarId| matches!(&self.vars[var], crate::variables::Var::VarI(ss) if ss.is_empty());
+                if is_empty_int(var1) || is_empty_int(var2) {
+                    continue;
+                }
+
                 // Collect bounds from both variables
                 let (var1_min, var1_max, is_var1_int) = match &self.vars[var1] {
                     crate::variables::Var::VarI(ss) => (ss.min(), ss.max(), true),
